@@ -208,6 +208,15 @@ def run_unit(unit, mode, outdir, extra=()):
              'obligations': 0, 'discharged': 0, 'smt_ms': 0, 'functions': gen.functions, 'rules': gen.rule_counts, 'clauses': gen.clauses, 'log': gen.log}
     else:
         r = analyse(unit, mode, gen, text, linemap, js, diags, raw, fname)
+        if getattr(gen, 'pin_failures', None):
+            # a pinned (assumed) text changed: only failures that do not rest on assumed contracts (frame obligations) are kept
+            keep = [f for f in r['failures'] if str(f.get('function', '')).startswith('frame:')]
+            r['failures'] = keep
+            if keep:
+                r['status'] = 'fail'
+            else:
+                r['status'] = 'inconclusive'
+            r['tool_errors'] = list(r.get('tool_errors', [])) + ['extractor: ' + '; '.join(gen.pin_failures)]
         # Solver-instability guard: an obligation counts as failed only if it fails under every solver seed tried.
         # Sound in the direction that matters: one accepted run is a proof; a real violation fails under every seed.
         retried = []
